@@ -6,7 +6,7 @@ import numpy as np
 from harness import common as C
 from harness import fd
 
-IMPORTS = "From FDAV Require Import Base.Num Base.Vec Base.Quad Base.Cmp Tie.C08."
+IMPORTS = "From FDAV Require Import Base.Num Base.Vec Base.Quad Base.Cmp Model.Simpson Tie.C08."
 
 RULE = ("helpers _integration_weights/_integrate/_inner_product on 1-D, 2-D, 3-D integrands over uniform, dyadic, non-uniform, "
         "day-of-year, shifted and negative grids (model: trapz, trapz_w, trapz2, trapz3, inner evaluated exactly in Q); "
@@ -15,7 +15,7 @@ RULE = ("helpers _integration_weights/_integrate/_inner_product on 1-D, 2-D, 3-D
         "zero row sums / permutation equivariance / multivariate sum; basis data through centred coefficients. "
         "Non-trivial = at least 3 grid points and a non-constant integrand; distinct by input bytes.")
 ASSUME = ["exact-arithmetic model; comparison tolerance 1e-10*scale (1e-9*scale for Gram matrices after centring)",
-          "Simpson's rule is not modelled: only its linearity is monitored (C08 simpson_partial)"]
+          "Simpson rule: Model/Simpson.v (scipy composite rule for unequal spacings) compared exactly, 1-D and 2-D"]
 
 
 def tol_of(*arrs, rel=1e-10):
@@ -44,6 +44,23 @@ def helper_level(rep, rng, quick):
         v = _inner_product(y, g, x, method="trapz")
         t = run.add(f"qclose {C.qlit(tol_of(x, y * g))} (inner opsQ {C.qlist(x)} {C.qlist(y)} {C.qlist(g)}) {C.qlit(v)}")
         todo.append((t, "inner-1d", kind, {"x": x, "f": y, "g": g, "impl": v}))
+        # Simpson's rule against the exact model (scipy's composite rule for unequal spacings: N = 2 trapezoid, N odd,
+        # N even with the correction for the last interval), 1-D and 2-D
+        hh = np.diff(x)
+        ratio = float(np.max(np.maximum(hh[1:] / hh[:-1], hh[:-1] / hh[1:]))) if m >= 3 else 1.0
+        stol = 1e-9 * max(1.0, float(np.ptp(x))) * max(1.0, float(np.max(np.abs(y)))) * (1.0 + ratio) ** 2
+        v = _integrate(y, x, method="simpson")
+        t = run.add(f"qclose {C.qlit(stol)} (simpson opsQ {C.qlist(x)} {C.qlist(y)}) {C.qlit(v)}")
+        todo.append((t, "simpson-1d", kind, {"x": x, "y": y, "impl": v}))
+        if i % 2 == 1:
+            xs2 = fd.grid(rng, int(rng.integers(2, 7)), fd.GRID_KINDS[(i + 3) % len(fd.GRID_KINDS)])
+            Ys = fd.dyadic_matrix(rng, m, len(xs2))
+            h2 = np.diff(xs2)
+            ratio2 = float(np.max(np.maximum(h2[1:] / h2[:-1], h2[:-1] / h2[1:]))) if len(xs2) >= 3 else 1.0
+            v2 = _integrate(Ys, x, xs2, method="simpson")
+            t = run.add(f"qclose {C.qlit(stol * max(1.0, float(np.ptp(xs2))) * (1.0 + ratio2) ** 2 * max(1.0, float(np.max(np.abs(Ys)))))} "
+                        f"(simpson2 opsQ {C.qlist(x)} {C.qlist(xs2)} {C.qmat(Ys)}) {C.qlit(v2)}")
+            todo.append((t, "simpson-2d", kind, {"x1": x, "x2": xs2, "Y": Ys, "impl": v2}))
         # monitors: linearity, weights agreement, simpson linearity
         a, b = 1.5, -0.25
         for meth in ("trapz", "simpson"):
@@ -73,6 +90,24 @@ def helper_level(rep, rng, quick):
             if abs(lhs - rhs) > 1e-9 * max(1.0, abs(rhs)):
                 rep.violation("integration does not factorise over a product grid",
                               {"x1": C.hexf(x), "x2": C.hexf(x2), "f": C.hexf(f1), "g": C.hexf(g1), "lhs": lhs, "rhs": rhs})
+            # the same for Simpson's rule, 2-D and 3-D, with at least 3 points on every axis
+            if m >= 3:
+                xb = fd.grid(rng, int(rng.integers(3, 8)), "nonuniform")
+                xc = fd.grid(rng, int(rng.integers(3, 6)), "shifted")
+                fb, fc = fd.dyadic_matrix(rng, 1, len(xb))[0] + 0.5, fd.dyadic_matrix(rng, 1, len(xc))[0] - 0.25
+                i1, i2, i3 = (_integrate(f1, x, method="simpson"), _integrate(fb, xb, method="simpson"),
+                              _integrate(fc, xc, method="simpson"))
+                l2 = _integrate(np.outer(f1, fb), x, xb, method="simpson")
+                l3 = _integrate(np.einsum("i,j,k->ijk", f1, fb, fc), x, xb, xc, method="simpson")
+                rep.case(("simpson-product", x.tobytes(), xb.tobytes(), xc.tobytes(), f1.tobytes()), kind="integrate-product/simpson")
+                bads = []
+                if abs(l2 - i1 * i2) > 1e-9 * max(1.0, abs(i1 * i2)):
+                    bads.append(f"2-D: {l2!r} vs product of the 1-D integrals {i1 * i2!r}")
+                if abs(l3 - i1 * i2 * i3) > 1e-9 * max(1.0, abs(i1 * i2 * i3)):
+                    bads.append(f"3-D: {l3!r} vs product of the 1-D integrals {i1 * i2 * i3!r}")
+                if bads:
+                    rep.violation("Simpson integration does not factorise over a product grid: " + "; ".join(bads),
+                                  {"x1": C.hexf(x), "x2": C.hexf(xb), "x3": C.hexf(xc), "f1": C.hexf(f1), "f2": C.hexf(fb), "f3": C.hexf(fc)})
         if i % 6 == 0:
             m2, m3 = int(rng.integers(2, 5)), int(rng.integers(2, 5))
             x2, x3 = fd.grid(rng, m2, "nonuniform"), fd.grid(rng, m3, "uniform-dyadic")
